@@ -102,9 +102,9 @@ static void run() {
     auto &a = vp::args();
     vp::CaseScope scope([] { return ser_case(g_cur); });
     size_t ntables = (a.thorough() ? 40000 : 3000) / a.nshards;
-    vp::stats().rule = vp::fmt("enum: %zu generated valid tables per shard; for each table every (address, length) in a window from 2 below the first area to 2 behind the last x 6 word patterns "
+    vp::stats().rule = vp::fmt("enum: %zu generated valid tables per shard; for each table every (address, length) in a window from 2 below the first area to 2 behind the last x 7 word patterns "
                                "(current content; one overlapped register driven to its bound -1/0/+1 through the words inside the window only; non-finite halves for float registers; all-ones; "
-                               "all-zero; random), applied as a history (content evolves); oracle = overlay on the flat model + per-register decode/constraint + failure class with first address + "
+                               "all-zero; random; the current content after one overlapped register was corrupted out of band), applied as a history (content evolves); oracle = overlay on the flat model + per-register decode/constraint + failure class with first address + "
                                "touched marks + exact-size caller buffer under ASan", ntables);
     vp::Rng rng(a.seed * 8191 + a.shard);
     FamilyOpts fo; fo.max_size = 8;
@@ -131,8 +131,20 @@ static void run() {
             windows.assign(ws.begin(), ws.end());
         }
         for (auto &wn : windows) { uint32_t addr = wn.first, n = wn.second;
-                for (int pat = 0; pat < 6; pat++) {
+                for (int pat = 0; pat < 7; pat++) {
                     if (n == 0 && pat > 0) continue;
+                    if (pat == 6) {
+                        // out-of-band corruption: one overlapped register is driven across its bound (or to a non-finite float) behind the library's back,
+                        // then the block carries exactly what the storage holds now - a read-modify-write of the neighbourhood must still be refused
+                        std::vector<size_t> cand;
+                        for (size_t ri = 0; ri < t.regs.size(); ri++) if (t.regs[ri].end() > addr && t.regs[ri].addr < addr + n && ((t.regs[ri].ckind >= rm::C_MIN && t.regs[ri].ckind <= rm::C_RANGE) || rm::is_float(t.regs[ri].type))) cand.push_back(ri);
+                        if (cand.empty() || !rng.chance(1, 3)) continue;
+                        const RegD &r = t.regs[cand[rng.below(cand.size())]];
+                        uint64_t target = rm::is_float(r.type) && (r.ckind < rm::C_MIN || r.ckind > rm::C_RANGE || rng.chance(1, 2)) ? rng.pick(special_floats(r.type))
+                                          : (r.ckind == rm::C_MAX || (r.ckind == rm::C_RANGE && rng.chance(1, 2))) ? step(r.type, r.hi, 1) : step(r.type, r.lo, -1);
+                        m.store(r, rm::canon(r.type, target));
+                        vp::cls("storage-corrupted-out-of-band-then-rewritten");
+                    }
                     if ((hi - lo) > 24 && n > 10 && (n % 3) != 0 && pat > 1) continue;   // thin out long windows on wide tables
                     Case c; c.t = t; c.content = m.mem; c.touched = m.touched; c.addr = addr; c.n = n; c.words.resize(n);
                     for (uint32_t i = 0; i < n; i++) c.words[i] = m.mapped(addr + i) ? m.word(addr + i) : (uint16_t)0x1111;
